@@ -206,3 +206,12 @@ def real(x):
 
 def rdiv(a, b):
     return real(a) / real(b)
+
+
+def forall(vs, body, pattern=None):
+    """ForAll with an explicit trigger when z3 accepts it (terms containing ite / predicates are not valid triggers;
+    such formulas only occur as goals, which the executor skolemises)"""
+    if pattern is not None:
+        try: return z3.ForAll(vs, body, patterns=[pattern])
+        except z3.Z3Exception: pass
+    return z3.ForAll(vs, body)
